@@ -109,7 +109,7 @@ func genProgram(t *rapid.T) *Program {
 		if pct(t, 45, "conditional") {
 			s.Cond = unif(t, 4, "cond")
 		}
-		s.K = weighted(t, map[string]int{"sstore": 20, "log": 10, "call": 26, "staticcall": 6, "delegatecall": 6, "create": 8, "selfdestruct": 4, "revert": 5, "return": 6, "invalid": 2, "stop": 2}, "stmtKind")
+		s.K = weighted(t, map[string]int{"sstore": 20, "log": 10, "call": 26, "staticcall": 6, "delegatecall": 6, "create": 8, "selfdestruct": 4, "revert": 4, "return": 6, "invalid": 2, "stop": 2, "revertdata": 5, "returndata": 2}, "stmtKind")
 		switch s.K {
 		case "sstore":
 			s.I, s.E = unif(t, 4, "sslot"), genExpr(t, 0)
@@ -134,6 +134,11 @@ func genProgram(t *rapid.T) *Program {
 			}
 		case "return":
 			s.E = genExpr(t, 0)
+		case "revertdata", "returndata":
+			s.N = unif(t, len(abiDataTemplates), "abiTpl")
+			if s.Cond < 0 {
+				s.Cond = unif(t, 4, "dataCond")
+			}
 		case "revert", "invalid", "stop":
 			if s.Cond < 0 {
 				s.Cond = unif(t, 4, "endCond")
